@@ -35,10 +35,19 @@ theorem next_patch_no_open_for (par : Bool) (p : List Expr) :
     nextPatch (.next (.mk par []) p) [] = (.next (.mk par []) p, []) := by
   simp [nextPatch]
 
-/-- a NEXT that names its variables is not touched and does not pop the stack -/
+/-- a NEXT that names its variables is not touched and closes as many open loops as it names
+(before the repair eb3f0fe it closed none: `FOR I:FOR J:NEXT J:NEXT` gave the bare NEXT `J` again) -/
 theorem next_patch_named (par : Bool) (e : Expr) (es : List Expr) (p : List Expr) (st : List Expr) :
-    nextPatch (.next (.mk par (e :: es)) p) st = (.next (.mk par (e :: es)) p, st) := by
+    nextPatch (.next (.mk par (e :: es)) p) st = (.next (.mk par (e :: es)) p, st.drop (es.length + 1)) := by
   cases st <;> simp [nextPatch]
+
+/-- lexically nested loops closed by name, then a bare NEXT: it receives the outer variable -/
+theorem next_after_named_next (i j : Expr) (a b : Expr) (p : List Expr) (par : Bool) :
+    let s1 := (nextPatch (.for_ i a b none p) []).2
+    let s2 := (nextPatch (.for_ j a b none p) s1).2
+    let s3 := (nextPatch (.next (.mk par [j]) p) s2).2
+    (nextPatch (.next (.mk par []) p) s3).1 = .next (.mk par [i]) p := by
+  simp [nextPatch]
 
 /-! ### the ELSE-IF chain as a loop -/
 
